@@ -1381,3 +1381,29 @@ func (bl *builder) assignInCode() {
 		}
 	}
 }
+
+// DupNamesInCommand reports two options of one command sharing a namespaced long
+// name or a short name. The library accepts that when they come from separately
+// added groups, but which of the two a name then denotes is not specified
+// anywhere; the generators keep names unique per command.
+func (d *Decl) DupNamesInCommand() bool {
+	dup := false
+	d.EachCmd(func(c *Cmd, chain []*Cmd) {
+		longs, shorts := map[string]bool{}, map[string]bool{}
+		for _, o := range d.CmdOpts(c, chain) {
+			if o.NsLong != "" {
+				if longs[o.NsLong] {
+					dup = true
+				}
+				longs[o.NsLong] = true
+			}
+			if o.Short != "" {
+				if shorts[o.Short] {
+					dup = true
+				}
+				shorts[o.Short] = true
+			}
+		}
+	})
+	return dup
+}
